@@ -63,9 +63,12 @@ def effects(facts, body, depth=0):
         # mem::take / replace
         w = it.muts.get((bb, 0))
         if w is not None and w.kind in ('take', 'replace'):
-            tgt = loc_target(it, w.loc)
-            if tgt is not None:
-                out.add(Effect(tgt[0], tgt[1], tgt[2], w.kind, tgt[3]))
+            for ai in (0, 1):   # mem::swap exchanges two places
+                w2 = it.muts.get((bb, ai))
+                if w2 is not None and w2.kind in ('take', 'replace'):
+                    tgt = loc_target(it, w2.loc)
+                    if tgt is not None:
+                        out.add(Effect(tgt[0], tgt[1], tgt[2], w2.kind, tgt[3]))
             continue
         callee_eff = effects(facts, callee_body, depth + 1) if callee_body is not None else None
         for i, a in enumerate(c.args):
@@ -112,9 +115,12 @@ def call_effects(facts, it, bb):
         callee_body = None
     w = it.muts.get((bb, 0))
     if w is not None and w.kind in ('take', 'replace'):
-        tgt = loc_target(it, w.loc)
-        if tgt is not None:
-            out.add(Effect(tgt[0], tgt[1], tgt[2], w.kind, tgt[3]))
+        for ai in (0, 1):
+            w2 = it.muts.get((bb, ai))
+            if w2 is not None and w2.kind in ('take', 'replace'):
+                tgt = loc_target(it, w2.loc)
+                if tgt is not None:
+                    out.add(Effect(tgt[0], tgt[1], tgt[2], w2.kind, tgt[3]))
         return out
     callee_eff = effects(facts, callee_body) if callee_body is not None else None
     for i, a in enumerate(c.args):
